@@ -330,7 +330,11 @@ func checkC18(c *core.Ctx) {
 	}
 	if !os_skipMC() {
 		cfgs := []string{"MC_Join3.cfg", "MC_Join3_S12.cfg"}
+		// two nodes, up to five process starts and three faults (crashes, losses): restarts and re-joins exhaustively
+		cfgs = append(cfgs, "MC_Restart2_mi.cfg")
 		if c.Thorough() {
+			// three nodes, one fault, no restart (1.4 M states; with a restart the three-node model does not finish in an hour
+			// since joining nodes handle gossip too)
 			cfgs = append(cfgs, "MC_Fault3_mi.cfg")
 		}
 		for _, cfg := range cfgs {
@@ -340,6 +344,10 @@ func checkC18(c *core.Ctx) {
 				return
 			}
 			c.MC(cfg, r)
+		}
+		// self-test of the invariants: the variant "a joining node that sees itself listed as up is done" keeps the previous incarnation
+		if r4, err := tlc.Exec(tlc.Run{Dir: dir, Module: "MC_Gossip", Config: "MC_Fault3_shortcut.cfg", Timeout: 4 * time.Minute}); err == nil {
+			c.Set("join_shortcut_model_violates", r4.ViolatedName)
 		}
 		// the design-level finding: with a crash, "exactly the running nodes" does not hold in the model either
 		r, err := tlc.Exec(tlc.Run{Dir: dir, Module: "MC_Gossip", Config: "MC_Fault3.cfg", Timeout: 10 * time.Minute})
